@@ -1067,13 +1067,13 @@ func (c *drNet) handover(kv map[string]string) any {
 		}
 	}
 	type obs struct {
-		Round     uint64 `json:"round"`
-		Live      string `json:"live"`
-		SharePub  string `json:"share_index"`
+		Round     uint64         `json:"round"`
+		Live      string         `json:"live"`
+		SharePub  string         `json:"share_index"`
 		OldPart   map[string]any `json:"old_partial,omitempty"`
 		NewPart   map[string]any `json:"new_partial,omitempty"`
 		LiveNodes string         `json:"live_nodes"`
-		InfoConst bool   `json:"info_const"`
+		InfoConst bool           `json:"info_const"`
 	}
 	var trace []obs
 	sch := og.Scheme
